@@ -189,6 +189,63 @@ def _kind_of(t):
     return "other:" + re.sub(r"[^A-Za-z0-9_]", "_", str(t))[:40]
 
 
+_PROBE_CELL = {"id": "c", "str": "s", "int": "7", "sint": "7", "oint": "7", "float": "1.5", "strand": "+", "ilist": "1,2",
+               "rest": "NM:i:0"}
+
+
+def _probe_interior(fmt, BT, comment):
+    """does this buffer type accept a comment line between two records?  Observed on the public behaviour: two valid
+    rows with a comment line in between parse to exactly two records (no private attribute is consulted)."""
+    import numpy as np
+    if not comment:
+        return False
+    F = FORMATS[fmt]
+    def row(k):
+        if fmt == "vcf":
+            return f"c\t{7 + k}\t.\tA\tC\t.\t.\t."
+        return "\t".join(str(7 + k) if kind == "int" else _PROBE_CELL[kind] for _, kind in F["cols"])
+    text = row(0) + "\n" + chr(comment) + "x\n" + row(1) + "\n"
+    import logging
+    logging.disable(logging.CRITICAL)
+    try:
+        d = BT.from_raw_buffer(np.frombuffer(text.encode(), dtype=np.uint8)).get_data()
+        return len(d) == 2
+    except Exception:
+        return False
+    finally:
+        logging.disable(logging.NOTSET)
+
+
+def _probe_kline(BT, nl):
+    """record marker and per-line offsets (bytes of line i that are not part of the field read from it) of a k-line
+    format, observed through the public interface: one record is written with `from_data`, its first byte is the
+    marker; the same record is read back with `from_raw_buffer(...).get_data()` and each text field is located as a
+    suffix of its line."""
+    import dataclasses
+    import numpy as np
+    dc = BT.dataclass
+    vals = {"name": ["nm"], "sequence": ["ACGT"], "quality": [[40, 40, 40, 40]]}
+    e = dc(*[vals[f.name] for f in dataclasses.fields(dc)])
+    raw = bytes(BT.from_data(e).raw())
+    marker = raw[0]
+    if not nl or nl <= 1:
+        return marker, []
+    lines = raw.decode("latin1").split("\n")[:nl]
+    d = BT.from_raw_buffer(np.frombuffer(raw, dtype=np.uint8)).get_data()
+    texts = []
+    for f in dataclasses.fields(d):
+        v = _canon_col(getattr(d, f.name))[0]
+        if isinstance(v, list) and all(isinstance(x, str) for x in v):
+            texts.append("".join(v))
+        elif isinstance(v, str):
+            texts.append(v)
+    offs = []
+    for ln in lines:
+        m = [len(ln) - len(t) for t in texts if t and ln.endswith(t)]
+        offs.append(min(m) if m else 0)
+    return marker, offs
+
+
 def tabulate():
     import dataclasses
     import numpy as np
@@ -203,11 +260,13 @@ def tabulate():
         comment = getattr(BT, "COMMENT", 0)
         comment = ord(comment) if isinstance(comment, str) and comment else int(comment or 0)
         nl = getattr(BT, "n_lines_per_entry", 0)
-        offs = list(getattr(BT, "_line_offsets", ())) if nl > 1 else []
-        hdr = getattr(BT, "HEADER", getattr(BT, "_new_entry_marker", None))
+        if F.get("cols") is None and fmt != "vcf":
+            marker, offs = _probe_kline(BT, nl)
+        else:
+            marker, offs = 0, []
         out[fmt] = dict(cols=cols, delim=ord(delim) if isinstance(delim, str) else 0, comment=comment,
-                        lines=int(nl or 0), offsets=[int(o) for o in offs], marker=ord(hdr) if isinstance(hdr, str) else 0,
-                        interior=hasattr(BT, "_calculate_col_starts_and_ends"))
+                        lines=int(nl or 0), offsets=[int(o) for o in offs], marker=int(marker),
+                        interior=_probe_interior(fmt, BT, comment))
     # behavioural constants: VCF position shift, SAM/BED/GTF shift (must be 0), FASTA writer width
     def first_int(BT, text, field):
         b = BT.from_raw_buffer(np.frombuffer(text.encode(), dtype=np.uint8))
@@ -223,7 +282,12 @@ def tabulate():
 
 
 def regenerate():
-    tabs, consts = tabulate()
+    import logging
+    logging.disable(logging.CRITICAL)      # the VCF probes make the package log "No header data found ..."
+    try:
+        tabs, consts = tabulate()
+    finally:
+        logging.disable(logging.NOTSET)
     o = ["import BnpVerif.Model.C02",
          "/-! GENERATED on every run by harness/props/c02.py from the package imported from /repo: per-format column",
          "schemas (dataclasses.fields of each buffer type's dataclass), delimiter, comment character, k-line layout, record",
@@ -725,6 +789,14 @@ def _fl(x):
     return "f:" + ("nan" if x != x else x.hex())
 
 
+def _is_haplotype_encoding(enc):
+    try:
+        from bionumpy.encodings.vcf_encoding import PhasedHaplotypeRowEncoding
+    except ImportError:
+        return False
+    return enc is PhasedHaplotypeRowEncoding or type(enc) is type(PhasedHaplotypeRowEncoding)
+
+
 def _canon_col(v):
     import numpy as np
     import dataclasses
@@ -746,7 +818,7 @@ def _canon_col(v):
         if v.ndim == 1:
             d = v.encoding.decode(v).raw() if hasattr(v.encoding, "decode") else v.raw()
             return [chr(int(c)) for c in np.asarray(d)]
-        if type(v.encoding).__name__ == "_PhasedHaplotypeRowEncoding":
+        if _is_haplotype_encoding(v.encoding):
             return [[int(x) for x in r] for r in np.asarray(v.raw()).tolist()]     # allele codes, one per haplotype
         d = np.asarray(v.encoding.decode(v.raw()))
         return ["".join(chr(int(c)) for c in row).split("\t") for row in d]
